@@ -1158,7 +1158,10 @@ Proof.
 Qed.
 
 Example anc_derivable_1_4 : Derivable rx0 anc_rules anc_facts (ancestor (tstr 1) (tstr 4)).
-Proof. apply anc_least_model. vm_compute. tauto. Qed.
+Proof.
+  destruct anc_least_model as [H _]. refine (proj1 (H _) _). vm_compute.
+  repeat ((left; reflexivity) || right).
+Qed.
 
 (* order independence on the same program with both lists reversed *)
 Example anc_perm :
@@ -1209,12 +1212,13 @@ Proof.
   apply (query_exact rx0 q_rule q_facts H1 H2 H3). vm_compute. tauto.
 Qed.
 
-(* an expression error ends the stream; the query keeps what was produced before *)
+(* an expression error ends the stream; the query keeps what was produced before:
+   big($x) <- n($x, $y, $z), 12 / ($y - 4) < 0 *)
 Definition q_rule_err : rule :=
   {| r_head := big (tvar 120);
      r_body := [nfact (tvar 120) (tvar 121) (tvar 122)];
      r_exprs := [[OVal (tint 12); OVal (tvar 121); OVal (tint 4); OBin BSub; OBin BDiv;
-                  OVal (tint 0); OBin BGreaterThan]] |}.
+                  OVal (tint 0); OBin BLessThan]] |}.
 Example q_err_run :
   apply_rule rx0 q_rule_err q_facts [] = ([big (tint 1); big (tint 2)], Some EDivZero) /\
   run rx0 lim0 [q_rule_err] q_facts = (q_facts, Some EDivZero).
@@ -1226,6 +1230,32 @@ Definition q_rule_invalid : rule :=
 Example q_invalid_run :
   run rx0 lim0 [q_rule_invalid] q_facts = (q_facts, Some EInvalidRule).
 Proof. vm_compute. reflexivity. Qed.
+
+(* the set-free hypothesis of [run_complete] is necessary: with set constants
+   Set.Equal identifies {1,1} with {1,2} (in that direction), so a derivable
+   fact is swallowed by [insert_fact] *)
+Definition sp (t : term) : pred := {| p_name := [112%N]; p_terms := [t] |}.
+Definition sq (t : term) : pred := {| p_name := [113%N]; p_terms := [t] |}.
+Definition set11 : term := TSet [AInt 1; AInt 1].
+Definition set12 : term := TSet [AInt 1; AInt 2].
+Definition set_rule : rule :=
+  {| r_head := sq (tvar 120); r_body := [sp (tvar 120)]; r_exprs := [] |}.
+
+Example run_complete_needs_setfree :
+  run rx0 lim0 [set_rule] [sp set11; sp set12] = ([sp set11; sp set12; sq set11], None) /\
+  Derivable rx0 [set_rule] [sp set11; sp set12] (sq set12) /\
+  ~ In (sq set12) [sp set11; sp set12; sq set11].
+Proof.
+  split; [vm_compute; reflexivity | split].
+  - apply (D_rule rx0 [set_rule] [sp set11; sp set12] set_rule [sp set12] [([120%N], set12)]).
+    + left; reflexivity.
+    + constructor; [apply D_base; right; left; reflexivity | constructor].
+    + constructor; [vm_compute; reflexivity | constructor].
+    + vm_compute; reflexivity.
+    + vm_compute; reflexivity.
+    + vm_compute; reflexivity.
+  - cbn [In]. intuition discriminate.
+Qed.
 
 (* limits: a chain c1 <- c0, c2 <- c1, ..., c5 <- c4 over the single fact c0.
    (Heads only take body variables and constants, so no program of this model
